@@ -356,6 +356,13 @@ int main(int argc, char **argv) {
         htp_config_set_u_encoding_decode(c->cfg, x, c->u_decode);
         htp_config_set_utf8_convert_bestfit(c->cfg, x, c->bestfit);
         htp_config_set_url_encoding_invalid_handling(c->cfg, x, (enum htp_url_encoding_handling_t) c->invalid);
+        /* the best-fit table and its replacement byte are configuration too (the model reads both from the configuration the
+         * transaction uses): a fifth of the lattice points replace with '*', a seventh use an application-supplied table */
+        if (ci % 5 == 1) htp_config_set_bestfit_replacement_byte(c->cfg, x, '*');
+        if (ci % 7 == 2) {
+            static unsigned char custom_map[] = { 0xff, 0x0e, '!', 0xff, 0x0f, '|', 0x22, 0x15, '#', 0x01, 0x41, 'z', 0xff, 0x21, 'Q', 0xff, 0x3c, '/', 0x00, 0x00, 0x00 };
+            htp_config_set_bestfit_map(c->cfg, x, custom_map);
+        }
         if (__builtin_popcount((unsigned) ci) & 1) {
             /* half of the configurations are not the connection's but the transaction's own (htp_tx_set_config), on a connection
              * configured the opposite way in every switch: the path is decoded per the transaction's configuration */
